@@ -18,7 +18,8 @@ CALLS = {1: ('user.get', [5]), 2: ('tag.get', ['abc']), 3: ('user.get', ['abc'])
          9: ('user.load', {'uid': 1}), 10: ('post.load', {'pid': 1, 'full': True}), 11: ('user.load', {'pid': 1}), 12: ('post.load', {'uid': 1}),
          13: ('whoami', []), 14: ('ping', []), 15: ('whoami2', []),
          16: ('withctx', {'a': 1, 'ctx': 5}), 17: ('noctx', {'a': 1, 'ctx': 5}), 18: ('withctx', {'a': 1}), 19: ('noctx', {'a': 1}),
-         20: ('tmp', {'x': 1}), 21: ('tmp', {'y': 1}), 22: ('tmp', {'y': 1})}
+         20: ('tmp', {'x': 1}), 21: ('tmp', {'y': 1}), 22: ('tmp', {'y': 1}),
+         23: ('lax.conv', ['5']), 24: ('strict.conv', ['5']), 25: ('lax.conv', [5]), 26: ('strict.conv', [5])}
 REGEN = {20: 'x', 21: 'yz', 22: 'x'}
 
 
@@ -36,6 +37,13 @@ def build(kind):
             return id
         get.__annotations__ = {'id': ann}
         return pv.validate(get)
+
+    pv_strict = vpd.PydanticValidator(coerce=True, strict=True)     # a second validator object with another configuration
+
+    def make_conv(v):
+        def conv(n: int):
+            return 'int' if type(n) is int else 'other:%r' % (n,)
+        return v.validate(conv)
 
     def make_find(typ):
         def find(q):
@@ -66,6 +74,8 @@ def build(kind):
     d.add(make_get(str), 'tag.get')
     d.add(make_find('integer'), 'user.find')
     d.add(make_find('string'), 'tag.find')
+    d.add(make_conv(pv), 'lax.conv')
+    d.add(make_conv(pv_strict), 'strict.conv')
     d.add(make_load('user'), 'user.load')
     d.add(make_load('post'), 'post.load')
     d.add(whoami, 'whoami', context='ctx')
